@@ -123,4 +123,6 @@ def gen_matrix(rng, B, n, alpha):
     return [[Fraction(rng.randint(0, alpha)) for _ in range(n)] for _ in range(B)]
 
 
-COMBS = ["fisher", "liptak", "tippett", ["negwsum", ["1", "1", "1", "1", "1"]], ["negwsum", ["1", "1/2", "2", "0", "1"]], "negmax", "possum", "logit"]
+COMBS = ["fisher", "liptak", "tippett", ["negwsum", ["1", "1", "1", "1", "1"]], ["negwsum", ["1", "1/2", "2", "0", "1"]], "negmax", "possum", "logit",
+         # invalid only in a LATER argument (the earlier ones outweigh it): the guard must test each argument on its own
+         ["negwsum", ["1", "1", "-1", "1", "1"]], ["negwsum", ["2", "-1", "1", "-3", "1"]], ["negwsum", ["3", "2", "1", "-1", "-1"]]]
